@@ -300,6 +300,16 @@ Theorem C03_hare_election_rule : forall cf a n_seats total prev caps (orc : orac
     exists qv p, quota_of cf total n_seats = Some qv /\ alloc_get a (Some c) = Some p /\ inject_Z s * qv <= wsum p.
 Proof. exact next_count_h_election. Qed.
 
+(* ... or by being among the last standing: the elect-all-remaining shortcut does not look at the transferer; it fires
+   exactly when Gregory's does and fills exactly the open seats *)
+Theorem C03_hare_last_standing : forall cf a n total seats caps (orc : oracle) el,
+  next_count_h cf a n total seats caps orc = HC_all el ->
+  next_count cf a n total seats caps = CR_all el /\ seats_sum el = (n - zsum (map snd seats))%Z.
+Proof.
+  intros cf a n total seats caps orc el H. pose proof (next_count_h_all_eq _ _ _ _ _ _ _ _ H) as H1.
+  split; [exact H1|exact (next_count_all _ _ _ _ _ _ _ H1)].
+Qed.
+
 (* elimination rule: when the shortcut does not apply and nobody reaches the quota, the count refuses a tie at the cut
    and otherwise transfers away exactly [eliminated cf a] - the same candidates as under Gregory: their number
    (C03_elimination_count / _configured), their being the lowest (C03_elimination_lowest) and the exhausted pile not
@@ -417,6 +427,7 @@ Print Assumptions C03_hare_shared_rank_split.
 Print Assumptions C03_hare_transfer.
 Print Assumptions C03_hare_subtract.
 Print Assumptions C03_hare_election_rule.
+Print Assumptions C03_hare_last_standing.
 Print Assumptions C03_hare_elimination_step.
 Print Assumptions C03_hare_count_stops.
 Print Assumptions C03_hare_every_recorded_count.
